@@ -580,7 +580,8 @@ AlphaLexis ==
   \cup {TX(ps) : ps \in SeqsLen(TextPieces, 1, 2)} \cup {TX(ps) : ps \in SeqsLen(CorePieces, 3, 3)}
   \cup {CD(cs) : cs \in SeqsLen({"x", "<", "&", "]", ">", "CR", "U1"}, 0, 2)} \cup {CD(<<"]", "]", ">">>), CD(<<"]", "]", "]">>)}
   \cup {CM(cs) : cs \in SeqsLen({"x", "-", "<", "LF", "UFFFE"}, 0, 2)} \cup {CM(<<"-", "x", "-">>), CM(<<"x", "-", "-">>)}
-  \cup {PI("t", cs) : cs \in SeqsLen({"d", "?", ">", "SP", "U1"}, 0, 2)} \cup {PI("xml", <<"d">>), PI("xMl", <<>>), PI("xml-s", <<"d">>)}
+  \cup ({PI("t", cs) : cs \in SeqsLen({"d", "?", ">", "SP", "U1"}, 0, 2)} \ {PI("t", <<"?", ">">>)})    \* "?>" inside the data cannot be rendered: it ends the PI
+  \cup {PI("xml", <<"d">>), PI("xMl", <<>>), PI("xml-s", <<"d">>)}
   \cup {BAD(k) : k \in {"amp-alone", "cref-unterminated", "cref-nodigits", "cref-badhex", "cref-upperx", "eref-unterminated",
                         "eof-in-cdata", "cdata-lower", "eof-in-comment", "eof-in-pi", "lt-space", "lt-bang", "comment-3dash",
                         "utf8-ff", "utf8-cont", "utf8-overlong", "trunc-utf8", "undeclared-ref"}}
@@ -684,7 +685,8 @@ Spec == Init /\ [][Next]_vars
 \* canonical completion of a prefix: close the open elements; supply a root when still in the prolog
 RECURSIVE Closers(_)
 Closers(stack) == IF stack = <<>> THEN <<>> ELSE <<ET(Last(stack))>> \o Closers(Front(stack))
-Completion == IF st.phase = "prolog" THEN toks \o <<EM("a", <<>>)>> ELSE toks \o Closers(st.stack)
+CompletionOf(tk, s) == IF s.phase = "prolog" THEN tk \o <<EM("a", <<>>)>> ELSE tk \o Closers(s.stack)
+Completion == CompletionOf(toks, st)
 
 TypeOK == st.phase \in {"prolog", "content", "misc", "done"} /\ Len(st.scopes) = Len(st.stack) /\ (st.phase = "content" => st.stack # <<>>) /\ (st.phase \in {"prolog", "misc"} => st.stack = <<>>)
 \* property C02 on the specification: fatal iff not well-formed; never later than the first violating token
